@@ -235,6 +235,8 @@ fn observe(rg: &Regs, out: &mut Vec<u64>, txt: &mut String) {
         out.extend(v.as_ivec3().to_array().iter().map(|x| *x as u32 as u64));
         let r: &[f32; 3] = v.as_ref(); out.extend(r.iter().map(|x| f(*x)));
         let mut heap = vec![0.0f32; 3]; v.write_to_slice(&mut heap[..]); out.extend(heap.iter().map(|x| f(*x)));
+        // a destination with room to spare: what lies beyond the value must stay as it was, whatever the hidden lane holds
+        let mut long = vec![0.0f32; 6]; v.write_to_slice(&mut long[..]); out.extend(long.iter().map(|x| f(*x)));
         out.extend([f(v.normalize_or_zero().x), f(v.max(clean).z), f(v.min(clean).z), f((v * clean).z)]);
         let sum: Vec3A = [v, clean].iter().sum(); out.extend(sum.to_array().iter().map(|x| f(*x)));
         txt.push_str(&format!("{:?}|{}|{:.3}|", v, v, v));
@@ -259,6 +261,7 @@ fn observe(rg: &Regs, out: &mut Vec<u64>, txt: &mut String) {
         out.extend(Mat2::from_mat3a(m).to_cols_array().iter().map(|x| f(*x)));
         out.extend(Mat2::from_mat3a_minor(m, 1, 2).to_cols_array().iter().map(|x| f(*x)));
         let mut heap = vec![0.0f32; 9]; m.write_cols_to_slice(&mut heap[..]); out.extend(heap.iter().map(|x| f(*x)));
+        let mut long = vec![0.0f32; 13]; m.write_cols_to_slice(&mut long[..]); out.extend(long.iter().map(|x| f(*x)));
         out.extend(m.transform_point2(Vec2::new(1.0, 2.0)).to_array().iter().map(|x| f(*x)));
         txt.push_str(&format!("{:?}|{}|", m, m));
     }
@@ -278,6 +281,7 @@ fn observe(rg: &Regs, out: &mut Vec<u64>, txt: &mut String) {
         let clean = Affine3A::from_cols_array(&a.to_cols_array());
         out.extend([(a == clean) as u64, a.abs_diff_eq(clean, 0.0) as u64]);
         let mut heap = vec![0.0f32; 12]; a.write_cols_to_slice(&mut heap[..]); out.extend(heap.iter().map(|x| f(*x)));
+        let mut long = vec![0.0f32; 16]; a.write_cols_to_slice(&mut long[..]); out.extend(long.iter().map(|x| f(*x)));
         out.extend(a.as_daffine3().to_cols_array().iter().map(|x| x.to_bits()));
         txt.push_str(&format!("{:?}|{}|", a, a));
     }
